@@ -95,6 +95,11 @@ def enum_blocks(tier, shard, nshards):
                 variants = [a, a[1:], a[:-1], a[:half], a[half:], a[::2], a[1::2], [v + 1 for v in a if v + 1 <= TOP],
                             [a[0]], [a[-1]], [a[half]], [a[half - 1], a[half]], a + [a[-1] + step],
                             [v for k, v in enumerate(a) if k % 64 in (0, 63)], []]
+                if step == 2 and n >= 8:
+                    # near-copies: same length, same first and last id, one interior id moved by one (a variable crossed
+                    # with a slightly edited copy of itself) - at the quarter points and next to the ends
+                    for k in sorted({1, n // 4, n // 2, (3 * n) // 4, n - 2}):
+                        variants.append(a[:k] + [a[k] + 1] + a[k + 1:])
                 for b in variants:
                     for x, y in ((a, b), (b, a)):
                         if i % nshards == shard:
